@@ -140,13 +140,13 @@ impl<K: Hash + PartialEq + Eq + core::fmt::Debug> SliceCache<K> {
         self.free_pointer = end;
 
         let inserted_range = Range::from_begin_len(begin, value.len());
-        let key = Arc::new(key);
-        self.indexes.insert(key.clone(), inserted_range.clone());
-        self.insertions.push_front(key);
+        // evict the older entries overwritten by this value before registering the new key,
+        // otherwise an insertion evicting every older entry would evict itself too
+        removed += self.remove_range(&inserted_range);
 
-        if self.insertions.len() > 1 {
-            removed += self.remove_range(&inserted_range)
-        }
+        let key = Arc::new(key);
+        self.indexes.insert(key.clone(), inserted_range);
+        self.insertions.push_front(key);
 
         Ok(removed)
     }
